@@ -7,7 +7,8 @@ import IwModel.Lemmas.StrtodArith
 
 Property theorems only; definitions of the specification side (`Cst`, `decode`, …) are in
 `IwModel/Model/JsonSpec.lean`, helper lemmas in `IwModel/Lemmas/Json*.lean`.
-Doubles are opaque: `sd` is the model's stand-in for `iwstrtod`, `D` the double a number token denotes. -/
+In the first group doubles are opaque: `sd` is a stand-in for `iwstrtod`, `D` the double a number token denotes; the section
+`iwstrtod inside the model` instantiates them with the soft-float model `iwstrtodModel` / `strtodD`. -/
 namespace IwModel.C13
 open IwModel IwModel.Json IwModel.SoftF64
 
